@@ -172,6 +172,14 @@ func (p *Program) instrMods(in ssa.Instruction, inScope func(ssa.Instruction) bo
 	case *ssa.MakeSlice:
 		out.add("alloc", ModHard)
 		out.add(p.sliceArray(x.Type().Underlying().(*types.Slice).Elem()), ModFresh)
+	case *ssa.Convert:
+		// []byte(string) allocates a fresh array
+		if st, ok := x.Type().Underlying().(*types.Slice); ok {
+			if _, isStr := x.X.Type().Underlying().(*types.Basic); isStr {
+				out.add("alloc", ModHard)
+				out.add(p.sliceArray(st.Elem()), ModFresh)
+			}
+		}
 	case *ssa.MakeClosure, *ssa.MakeInterface:
 		// no heap effect in the model
 	case *ssa.Next:
@@ -361,6 +369,12 @@ func (p *Program) externMods(f *ssa.Function, c *ssa.CallCommon, out ModSet) {
 	case "(*bytes.Buffer).WriteByte", "(*strings.Builder).WriteByte", "(*bytes.Buffer).WriteRune", "(*strings.Builder).WriteRune",
 		"(*bytes.Buffer).WriteString", "(*strings.Builder).WriteString", "(*bytes.Buffer).Write", "(*strings.Builder).Write":
 		out.add("BUF_len", ModHard)
+	case "unicode/utf8.EncodeRune":
+		if len(c.Args) == 2 {
+			if st, ok := c.Args[0].Type().Underlying().(*types.Slice); ok {
+				out.add(p.sliceArray(st.Elem()), ModHard)
+			}
+		}
 	case "errors.As":
 		// writes the target cell
 		if len(c.Args) == 2 {
